@@ -62,9 +62,18 @@ def build(targets, timeout=1500):
     """make the given .vo targets (and what they depend on). Returns (ok, log)."""
     with Lock():
         ensure_makefile()
-        cmd = ["timeout", str(timeout), "make", "-j16"] + list(targets)
+        cmd = ["timeout", str(timeout), "make", "-j4"] + list(targets)
         p = subprocess.run(cmd, cwd=paths.COQ, capture_output=True, text=True)
-        return p.returncode == 0, p.stdout[-6000:] + p.stderr[-6000:]
+        out = p.stdout[-6000:] + p.stderr[-6000:]
+        if p.returncode != 0 and "inconsistent assumptions" in out:
+            # a shared .vo was replaced by another build while this one ran: remove the stale
+            # object named in the message and make again (once)
+            m = re.search(r"\(in file ([^)]+\.vo)\) makes inconsistent assumptions", out)
+            if m and os.path.exists(m.group(1)):
+                os.remove(m.group(1))
+            p = subprocess.run(cmd, cwd=paths.COQ, capture_output=True, text=True)
+            out = p.stdout[-6000:] + p.stderr[-6000:]
+        return p.returncode == 0, out
 
 
 def failing_file(log):
